@@ -806,8 +806,17 @@ def _obligations(body, ia=None):
             dis = bool(ia and ia.assert_results.get(bb)) if ia is not None else False
             if ia is not None and bb not in ia.instates:
                 dis = True  # unreachable under the analysis
+            oty = ''
+            for kk in ('a', 'index'):
+                if kk in m and isinstance(m[kk], dict):
+                    pl_ = m[kk].get('c') or m[kk].get('m')
+                    if pl_ is not None:
+                        oty = pl_.get('ty') or body.locals[pl_['l']]['ty']
+                    elif 'k' in m[kk]:
+                        oty = m[kk]['k'].get('ty', '')
+                    break
             out.append({'kind': kind, 'ops': ops, 'bb': bb, 'discharged': dis, 'where': body.loc(bb),
-                        'detail': t.get('dbg', '')[:160]})
+                        'detail': t.get('dbg', '')[:160], 'ty': oty})
         elif t['k'] == 'call':
             info = call_info(t)
             if info is None:
